@@ -10,6 +10,11 @@ NOT_APPLICABLE = {
 }
 
 TEXT = {
+    'C10': {
+        'technique': 'Verus proof of retry_on_timeout for every retry count (ghost attempt counter, loop invariant); Kani harnesses on each real wrapper with the attempt function stubbed by a scripted recorder',
+        'level_text': 'retry_on_timeout: unbounded proof (all r incl. usize::MAX, all closures) that exactly one attempt is made per iteration, at most r+1 in total, only receive/send-class failures are retried, the result is an outcome of an attempt and after r+1 timeouts the last timeout error is returned. Wrappers (valve, gamespy 1/2/3, unreal2, java, bedrock, legacy 1.6): bit-precise check for r in {0,1} over all 125 three-attempt outcome scripts that the number of attempts, the arguments of every attempt and the result match the retry specification.',
+        'level_note': 'Wrapper harnesses are bounded (r <= 1) and labelled so; quake and mindustry wrappers are not covered (CBMC does not terminate); legacy 1.4 / beta 1.8 wrappers have the same text as 1.6 but are not run.',
+    },
     'C15': {
         'technique': 'Kani proof harnesses on the real impl CommonResponse / CommonPlayer of all 15 response and 11 player types: symbolic scalar fields, pointer identity for strings, as_json and as_original checked',
         'engine': 'kani',
